@@ -1246,6 +1246,37 @@ fn main() {
     }
   }
 
+  // ---- C2. multi-character control/whitespace prefixes and suffixes (the parser trims any number of them; the
+  // guard must see exactly the same set of characters), around short cores where shifted offsets still parse
+  let ctl = ['\u{1}', '\0', '\u{1b}', '\u{7f}', ' ', '\n', '\t', '\u{b}', '\u{1f}'];
+  let short_cores = ["did:m:xyz?q", "did:m:xyz", "did:m:xy/p?q", "did:a:bcdef?g=h", "did:m:xyz#f", "did:ab:xyz?q"];
+  for core in short_cores {
+    for len in 1..=4usize {
+      let mut idx = vec![0usize; len];
+      loop {
+        k += 1;
+        if args.mine(k) {
+          let junk: String = idx.iter().map(|i| ctl[*i]).collect();
+          cx.case_string("ws", &format!("{}{}", junk, core));
+          cx.case_string("ws", &format!("{}{}", core, junk));
+          cx.rep.inc("whitespace_strings");
+        }
+        let mut pos = 0;
+        while pos < len {
+          idx[pos] += 1;
+          if idx[pos] < ctl.len() {
+            break;
+          }
+          idx[pos] = 0;
+          pos += 1;
+        }
+        if pos == len {
+          break;
+        }
+      }
+    }
+  }
+
   // ---- D. seeded random: valid DID URLs and mutations
   let n_random = sc(if thorough { 4_000_000 } else { 160_000 }) / args.nshards.max(1);
   let mut valid_pool: Vec<String> = Vec::new();
@@ -1343,9 +1374,10 @@ fn main() {
   // ---- G. Eq / Ord / Hash
   let mut pool: Vec<PoolItem> = Vec::new();
   let dids: &[&str] = if thorough { &["did:m:a", "did:m:b", "did:n:a", "did:m:a:b", "did:m:a%41b", "did:example:123", "did:m:A"] } else { &["did:m:a", "did:m:b", "did:n:a%41b"] };
-  let paths: &[Option<&str>] = if thorough { &[None, Some("/"), Some("/a"), Some("/a/b"), Some("/b"), Some("/a%2F")] } else { &[None, Some("/"), Some("/a"), Some("/b")] };
-  let qs: &[Option<&str>] = if thorough { &[None, Some("a"), Some("b"), Some("a=1&b=2")] } else { &[None, Some("a"), Some("b")] };
-  let fs: &[Option<&str>] = if thorough { &[None, Some("a"), Some("b"), Some("a?b/c")] } else { &[None, Some("a"), Some("b")] };
+  // values that differ only in the case of percent-encoding hex digits are different strings: ==, cmp and hash must all say so
+  let paths: &[Option<&str>] = if thorough { &[None, Some("/"), Some("/a"), Some("/a/b"), Some("/b"), Some("/a%2Fb"), Some("/a%2fb")] } else { &[None, Some("/"), Some("/a"), Some("/a%2Fb"), Some("/a%2fb")] };
+  let qs: &[Option<&str>] = if thorough { &[None, Some("a"), Some("b"), Some("a=1&b=2"), Some("a=%e2x"), Some("a=%E2x")] } else { &[None, Some("a"), Some("a=%e2x"), Some("a=%E2x")] };
+  let fs: &[Option<&str>] = if thorough { &[None, Some("a"), Some("b"), Some("a?b/c"), Some("k%aB"), Some("k%Ab")] } else { &[None, Some("a"), Some("k%aB"), Some("k%Ab")] };
   for d in dids {
     for p in paths {
       for q in qs {
